@@ -60,6 +60,27 @@ def run(job):
                      repr(u3[-1]._equiv), repr(given))
     u3.append(c3.new_unit(W.uid("tq"), define_as=Decimal(1000) * u3[2]))
     u3.append(c3.new_unit(W.uid("tq"), define_as=Fraction(1, 3) * u3[3]))
+    # units of derived types declared as number * unit ** k with k != 1 and a
+    # unit that is not the reference unit
+    import quantity.predefined as P
+    extra = []
+    for cls, items in ((P.Area, ((Decimal(5), 1), (P.KILOMETRE, 2))),
+                       (P.Volume, ((Fraction(3, 4), 1), (P.CENTIMETRE, 3))),
+                       (P.Frequency, ((2, 1), (P.MINUTE, -1))),
+                       (P.Area, ((P.INCH, 2), (Decimal(7), 1))),
+                       (P.Velocity, ((Decimal(3), 1), (P.MILE, 1), (P.HOUR, -1)))):
+        u = cls.new_unit(W.uid("dq"), define_as=Term(items))
+        extra.append(u)
+        given = Fraction(1)
+        for el, ex in items:
+            given *= (O.chain_scale(el) if hasattr(el, "_symbol") else O.F(el)) ** ex
+        if not job.shard:
+            job.case("wf/equiv-is-scale-of-given-term", repr(items),
+                     O.F(u._equiv) == given, repr(u._equiv), repr(given))
+            q = 3 * u
+            r = q.convert(cls.ref_unit)
+            job.case("convert/term-declared-unit", repr(items),
+                     O.F(r.amount) == 3 * given, repr(r), repr(3 * given))
     groups = [list(c.units()) for c in classes] + [u1, u2, pu, u3]
     job.bound = (f"{len(groups)} linear types, all ordered unit pairs "
                  f"(triples on a sample), {len(W.amounts_grid(job.extra))} amounts")
@@ -119,3 +140,37 @@ def run(job):
         except Exception as e:
             job.case("convert/other-type", (ua.symbol, ub.symbol), False,
                      repr(e), "IncompatibleUnitsError")
+
+    # a conversion within a type must not influence a following conversion to
+    # a unit of another type whose scales happen to be the same
+    if not job.shard:
+        seqs = [((P.KILOMETRE, P.METRE), (P.TONNE, P.METRE)),
+                ((P.KILOMETRE, P.METRE), (P.KILOWATT, P.KILOGRAM)),
+                ((P.MILLIMETRE, P.METRE), (P.GRAM, P.SQUARE_METRE)),
+                ((P.KILOGRAM, P.GRAM), (P.METRE, P.MILLISECOND)),
+                ((P.HOUR, P.SECOND), (P.KILOWATT_HOUR, P.WATT))]
+        for (a1, b1), (a2, b2) in seqs:
+            for how in ("convert", "add", "compare", "parse"):
+                x = Fraction(7, 2) * a1
+                if how == "convert":
+                    x.convert(b1)
+                elif how == "add":
+                    x + 1 * b1
+                elif how == "compare":
+                    x < 1 * b1
+                else:
+                    Quantity(f"2 {a1.symbol}", b1)
+                y = 2 * a2
+                for name, fn in (("convert", lambda: y.convert(b2)),
+                                 ("equiv_amount", lambda: y.equiv_amount(b2)),
+                                 ("parse", lambda: Quantity(f"5 {a2.symbol}", b2))):
+                    try:
+                        r = fn()
+                        job.case("convert/other-type-after-same-scales",
+                                 (how, a1.symbol, b1.symbol, name, a2.symbol,
+                                  b2.symbol), False, repr(r),
+                                 "IncompatibleUnitsError")
+                    except IncompatibleUnitsError:
+                        job.case("convert/other-type-after-same-scales",
+                                 (how, a1.symbol, b1.symbol, name, a2.symbol,
+                                  b2.symbol), True)
